@@ -29,9 +29,14 @@ def configs(tier, seed):
                 if n <= 3 or (tier == "thorough" and n == 4):
                     cfgs.append(dict(n=n, nq=1, K=3, part=list(part), branch=branch, mode="otype",
                                      weight=10 ** n * 4, wstride=ws))
+    from .metrics import FAMILY
+    for name in FAMILY:
+        for n in ([1, 2] if tier == "quick" else [1, 2, 3]):
+            cfgs.append(dict(mode="family", metric=name, n=n, weight=5, timeout_ms=30000 if tier == "quick" else 240000))
     return cfgs
 
 
+UNREPRODUCED_IS_INCONCLUSIVE = False
 from .c15 import compare  # noqa: E402
 
 
